@@ -220,9 +220,17 @@ def check_message(e, files_by_id, want_tok=None, want_off=None):
 
 
 def py_span_to_chars(s, a, b):
-    """what `composed` does to a byte span (a, b) of text s: both ends on character boundaries -> character offsets, else unchanged"""
-    ca, cb = byte_to_char(s, a), byte_to_char(s, b)
-    return (ca, cb) if ca is not None and cb is not None else (a, b)
+    """what `composed` does to a byte span (a, b) of text s (0301a92): each end becomes the number of characters that START
+    before that byte offset (inside a character = its end, past the text = the end of the text)"""
+    def before(x):
+        n, pos = 0, 0
+        for ch in s:
+            if pos >= x:
+                break
+            n += 1
+            pos += len(ch.encode("utf-8"))
+        return n
+    return (before(a), before(b))
 
 
 def model_composed(v):
@@ -353,19 +361,15 @@ def run():
         t = tpls[case["ti"]]
         k = case.get("kind")
         if k == "panic":
-            # F9 (byte spans read as characters: the assert behind non-ASCII text) was repaired by d3106b1: a panic is a violation,
-            # except the one the rebasing defect still causes: its wrong byte span can end inside a multi-byte character, `composed`
-            # leaves such a span unconverted, and the byte offsets are past the character length
-            if (t.get("known") == "interp-rebase" and t.get("interp") and "is out of bounds of the source" in case.get("msg", "")
-                    and any(ord(ch) > 127 for ch in t["text"])):
-                return "C13-N1-interp-span-rebase"
+            # F9 (d3106b1) and the assert behind a wrong rebased span inside a multi-byte character (0301a92) are repaired:
+            # every panic of error reporting is a violation
             return None
         clauses = set(case.get("clauses", []))
         if "span-names-no-file" in clauses or "location-for-foreign-span" in clauses or "wrong-file" in clauses:
             # C13-N2 (span into std.prql) was repaired by 7cb9d46: a span that names no file of the tree is a violation
             return None
         if t.get("known") == "interp-rebase" and clauses <= {"slice-not-found-token", "span-not-offending-token", "location-not-position", "display-misses-line", "out-of-bounds", "no-location", "no-display"}:
-            # the rebasing defect (a wrong byte span can also end inside a code point, which `composed` then leaves unconverted)
+            # the rebasing defect (a wrong byte span can end inside a code point: `composed` rounds it to the end of that character)
             return "C13-N1-interp-span-rebase"
         return None
 
